@@ -190,8 +190,8 @@ func (r *Report) Finish(findings []Finding, evidencePath, outDir string, extra m
 		"distinct_nontrivial": len(distinct),
 		"rule": "one evaluation = one obligation (rule instance applied to one resolved construct of the current tree); " +
 			"distinct = distinct rule+construct keys; every counted obligation examined a real site (rules that match fewer sites than min_instances fail)",
-		"samples":   samples,
-		"rules":     r.Rules,
+		"samples":    samples,
+		"rules":      r.Rules,
 		"exhaustive": false,
 	}
 	for k, v := range r.Info {
@@ -200,13 +200,18 @@ func (r *Report) Finish(findings []Finding, evidencePath, outDir string, extra m
 	for k, v := range extra {
 		cov[k] = v
 	}
+	assume := r.Assume
+	if assume == nil {
+		assume = []string{}
+	}
+	assume = append(assume, "go/packages, go/types, go/ssa of golang.org/x/tools v0.29.0 and the checker's own dominance / reachability / slicing code are correct")
 	ev := map[string]any{
 		"property_id": r.Property,
 		"tier":        r.Tier,
 		"seed":        r.Seed,
 		"level":       "other",
 		"coverage":    cov,
-		"assumptions": r.Assume,
+		"assumptions": assume,
 		"wall_s":      wall,
 		"violations":  res.Violations,
 	}
